@@ -314,7 +314,7 @@ func alphaCode(i int) uint64 {
 func TestRapidCompetitors(t *testing.T) {
 	ev.Rule(chkRapid, "rapid: tree-generated histories (all 5 key types, both hash algorithms, forks, bad deltas, windows, duplicate creates, unpublished operations), (time, number) drawn so that time order and number order disagree, store and unpublished-store return orders drawn as permutations, and (one in three) a drawn subset of the operations handed over through the additional-operations resolution option in a drawn order; same two oracles; non-trivial = >= 2 valid candidates for a commitment/create slot and a non-chronological store order")
 	ev.Rapid(t, chkRapid, 600, 6000, func(t *rapid.T) {
-		h := gen.Hist(t, gen.HistOpts{MinOps: 2, MaxOps: 9, Forks: true, BadDeltas: true, Windows: true, DupCreates: true, Replays: true, Pool: "c02"})
+		h := gen.Hist(t, gen.HistOpts{MinOps: 2, MaxOps: 9, Forks: true, BadDeltas: true, Windows: true, DupCreates: true, Cycles: true, Replays: true, Pool: "c02"})
 		anch := gen.Anchor(t, h, gen.AnchorOpts{Unpublished: true})
 		c := hist.NewCase(h.Suffix, h.Code, 0, anch)
 		pi, ui := indexes(c, true), indexes(c, false)
